@@ -534,25 +534,33 @@ func runC11(e *Env) {
 	// every denomination kind x every module-account recipient (incl. the erc20 module itself) and one user, with prior funds,
 	// a parsable and an unparsable recipient string, a failure at each EVM call of the conversion
 	for di := 0; di < c11NumDenoms; di++ {
-		for ri, rc := range []string{"M0", "M1", "M2", "M3", "U1"} {
+		for ri, rc := range []string{"M0", "M1", "M2", "M3", "U1", "M4", "M5"} {
 			thr := big.NewInt(int64(20000 + 100*di + ri))
 			kase := &c11Case{Fee: "3000000000000000", Rcpt: rc, PriorStd: big.NewInt(int64(6000 + e.Pick(30000))).String(),
 				PriorOther: "77", PriorV: map[int]string{}}
 			d := w.denoms[di]
 			if !d.Std {
 				kase.PriorV[di] = big.NewInt(int64(1 + e.Pick(5000))).String()
+				pd := di
+				if d.Collides > 0 { // pool and a large prior holding of the one-hop voucher a multi-hop voucher must not be confused with
+					pd = d.Collides - 1
+					kase.PriorV[pd] = "5000000000000"
+				}
 				if e.Chance(0.7) {
-					kase.Pools = []c11PoolSpec{{Denom: di, Std: new(big.Int).Mul(thr, big.NewInt(1000)).String(), Tok: "5000000", Max: "1000000000000"}}
+					kase.Pools = []c11PoolSpec{{Denom: pd, Std: new(big.Int).Mul(thr, big.NewInt(1000)).String(), Tok: "5000000", Max: "1000000000000"}}
 				}
 			}
 			dst := []string{"channel-0", "channel-1", "channel-5"}[(di+ri)%3]
 			wl := []string{dst, "channel-0", "channel-1"} // voucher denominations fix their own channel: keep those whitelisted too
-			for k := 0; k < 4; k++ {
+			for k := 0; k < 5; k++ {
 				pk := c11Packet{Enabled: true, Whitelist: wl, Threshold: thr.String(), Denom: di, Channel: dst,
 					SrcChannel: []string{"channel-0", "channel-9"}[k%2], Amount: big.NewInt(int64(1000 + e.Pick(1_000_000))).String(),
 					BadRecipient: k%2 == 0, Plan: c04Plan{FailAt: 1 + (k+ri+di)%4}, ParamRoute: []string{"", "msg", "legacy"}[(k+ri)%3]}
 				if k == 3 {
 					pk.BadSender, pk.BadRecipient = true, e.Chance(0.5)
+				}
+				if k == 4 { // and one packet nothing interferes with
+					pk.BadRecipient, pk.Plan = false, c04Plan{}
 				}
 				kase.Packets = append(kase.Packets, pk)
 			}
@@ -560,24 +568,28 @@ func runC11(e *Env) {
 			w.c11Exec(e, kase, nil)
 		}
 	}
-	nCases := e.Scale(230, 4000)
+	nCases := e.Scale(220, 4000)
 	if e.Tier == "search" {
 		nCases = 260
 	}
 	fees := []string{"0", "3000000000000000", "500000000000000000", "999999999999999999", "1"}
-	denomWeights := []int{0, 0, 0, 0, 0, 1, 1, 1, 2, 3, 3, 3, 4, 5, 5, 6}
+	denomWeights := []int{0, 0, 0, 0, 0, 1, 1, 1, 2, 3, 3, 3, 4, 5, 5, 6, 7, 7, 8}
 	for c := 0; c < nCases; c++ {
 		kase := &c11Case{Fee: fees[e.Pick(len(fees))], Rcpt: fmt.Sprintf("U%d", e.Pick(c11Users)), PriorV: map[int]string{}}
 		if e.Chance(0.5) {
 			kase.Fee = "3000000000000000"
 		}
 		if e.Chance(0.13) {
-			kase.Rcpt = fmt.Sprintf("M%d", e.Pick(len(c11Modules)))
+			kase.Rcpt = fmt.Sprintf("M%d", e.Pick(len(c11Modules)+len(c11ForeignModules)))
 		}
 		fee := bigOf(kase.Fee)
 		thr := e.c11Threshold()
 		main := denomWeights[e.Pick(len(denomWeights))]
-		// ---- pool of the main denomination
+		// ---- pool of the main denomination (for a multi-hop voucher: of the one-hop voucher it must not be confused with)
+		poolDenom := main
+		if c := w.denoms[main].Collides; c > 0 {
+			poolDenom = c - 1
+		}
 		poolKind := e.Pick(14)
 		if !w.denoms[main].Std && poolKind >= 2 {
 			var std, tok *big.Int
@@ -612,7 +624,7 @@ func runC11(e *Env) {
 			if max == "0" || (max != "" && max[0] == '-') {
 				max = "1"
 			}
-			kase.Pools = append(kase.Pools, c11PoolSpec{Denom: main, Std: std.String(), Tok: tok.String(), Max: max})
+			kase.Pools = append(kase.Pools, c11PoolSpec{Denom: poolDenom, Std: std.String(), Tok: tok.String(), Max: max})
 		}
 		// ---- prior funds
 		switch e.Pick(8) {
@@ -635,6 +647,9 @@ func runC11(e *Env) {
 		kase.PriorOther = e.Mag(60).String()
 		if e.Chance(0.6) && !w.denoms[main].Std {
 			kase.PriorV[main] = e.Mag(90).String()
+		}
+		if poolDenom != main { // the recipient holds plenty of the one-hop voucher
+			kase.PriorV[poolDenom] = new(big.Int).Lsh(big.NewInt(int64(1+e.Pick(1000))), uint(60+e.Pick(70))).String()
 		}
 		enabled, wlist := true, []string{"channel-0", "channel-1", "channel-5"}
 		switch e.Pick(22) {
@@ -709,7 +724,11 @@ func runC11(e *Env) {
 				pk.Before = append(pk.Before, c11Prep{Kind: "module-tokens", Amount: e.Mag(100).String()})
 			}
 			// the amount, aimed at what the swap needs right now (as if the preps had been applied: spend-std does not move the pool)
-			needed := w.c11Needed(ctx, d, pthr, fee)
+			nd := d
+			if d.Collides > 0 {
+				nd = w.denoms[d.Collides-1]
+			}
+			needed := w.c11Needed(ctx, nd, pthr, fee)
 			var amt *big.Int
 			switch e.Pick(10) {
 			case 0:
